@@ -372,11 +372,13 @@ fn set2_from_iter<const L1: usize, const L2: usize>(class: u16, ty: u16) -> bool
 // skeleton pairs: concrete structure, symbolic contents
 // --------------------------------------------------------------------------
 // Two Box<Name> of symbolic size cost minutes and gigabytes (see the fully
-// symbolic harnesses), which rules out fully symbolic SOA/SRV RDATA and
-// names longer than 5 octets.  Here the STRUCTURE of each RDATA (where the
-// length octets are and what they hold) is fixed per iteration of a concrete
-// loop, so the names have concrete sizes; symbolic are every label content
-// octet, every fixed-field octet and every junk octet (all 256 values each).
+// symbolic harnesses), which rules out fully symbolic SOA RDATA and names
+// longer than 5 octets.  Here the STRUCTURE of each RDATA (where the length
+// octets are and what they hold) is fixed per harness, so the names have
+// concrete sizes; symbolic are every label content octet, every fixed-field
+// octet and every junk octet (all 256 values each).  Even so one pair costs
+// 1-2 minutes (the names live in heap objects CBMC does not constant-fold
+// through), so each harness holds ONE pair of shapes.
 
 const SK_LEN: usize = 40;
 const SK_NAME_VARIANTS: usize = 9;
@@ -466,118 +468,9 @@ fn sk_check(a: &[u8], b: &[u8], class: u16, ty: u16) -> PairSeen {
     seen(a, b, e)
 }
 
-/// All ordered pairs of name-field variants for a one-name layout.
-fn sk_pairs_one_name(class: u16, ty: u16, pre: usize, post: usize) {
-    let mut va = 0;
-    while va < SK_NAME_VARIANTS {
-        let mut vb = va;
-        while vb < SK_NAME_VARIANTS {
-            let (a, la) = sk_rdata(pre, va, None, post);
-            let (b, lb) = sk_rdata(pre, vb, None, post);
-            let s = sk_check(&a[..la], &b[..lb], class, ty);
-            kani::cover!(s.equal && !s.same_octets, "equal RDATA whose octets differ (case-insensitive name match)");
-            kani::cover!(!s.equal && s.same_up_to_case, "unequal RDATA that differ only in ASCII case");
-            kani::cover!(s.equal && s.same_octets && va == 5, "identical malformed RDATA are equal");
-            vb += 1;
-        }
-        va += 1;
-    }
-}
-
-/// Pairs of two-name RDATA: both names range over `set`, independently for
-/// both RDATA; `post_a`/`post_b` octets follow.
-fn sk_pairs_two_names(class: u16, ty: u16, set: &[usize], post_a: usize, post_b: usize) {
-    let mut i = 0;
-    while i < set.len() {
-        let mut j = 0;
-        while j < set.len() {
-            let mut k = 0;
-            while k < set.len() {
-                let mut l = 0;
-                while l < set.len() {
-                    let (a, la) = sk_rdata(0, set[i], Some(set[j]), post_a);
-                    let (b, lb) = sk_rdata(0, set[k], Some(set[l]), post_b);
-                    let s = sk_check(&a[..la], &b[..lb], class, ty);
-                    kani::cover!(s.equal && !s.same_octets, "equal RDATA whose octets differ (case-insensitive name match)");
-                    kani::cover!(!s.equal && s.same_up_to_case, "unequal RDATA that differ only in ASCII case");
-                    l += 1;
-                }
-                k += 1;
-            }
-            j += 1;
-        }
-        i += 1;
-    }
-}
-
-// ---- skeleton pairs for every name-bearing type (quick) ---------------------
-
-// @harness props=C19 tier=quick mem=4 t=900 fn="Rdata::equals,helpers::names_equal,helpers::test_n_name_fields,Name::try_from_uncompressed,<Name as PartialEq>::eq,<Label as PartialEq>::eq"
-//   bound="type NS, any class; 9 concrete name-field shapes (root, 1-octet label, same + junk octet, 2-octet label, truncated label, reserved label type, two labels, two 3-octet labels, root + junk) for each RDATA, all 45 unordered pairs, both orders; symbolic label contents, fixed fields, junk; unwind 12"
-//   sym="content octets, class:u16" stubs="eq_ignore_ascii_case"
-#[kani::proof]
-#[kani::unwind(12)]
-#[kani::stub(<[u8]>::eq_ignore_ascii_case, eq_ic_model)]
-fn c19_ns_skeleton() {
-    sk_pairs_one_name(any_class(), 2, 0, 0);
-}
-
-// @harness props=C19 tier=quick mem=4 t=900 fn="Rdata::equals,Rdata::equals_as_mx,helpers::names_equal,helpers::test_n_name_fields"
-//   bound="type MX, any class; 2 preference octets + 9 concrete name-field shapes (root, 1-octet label, same + junk octet, 2-octet label, truncated label, reserved label type, two labels, two 3-octet labels, root + junk) for each RDATA, all 45 unordered pairs, both orders; symbolic label contents, fixed fields, junk; unwind 12"
-//   sym="content octets, class:u16" stubs="eq_ignore_ascii_case"
-#[kani::proof]
-#[kani::unwind(12)]
-#[kani::stub(<[u8]>::eq_ignore_ascii_case, eq_ic_model)]
-fn c19_mx_skeleton() {
-    sk_pairs_one_name(any_class(), 15, 2, 0);
-}
-
-// @harness props=C19 tier=quick mem=4 t=900 fn="Rdata::equals,Rdata::equals_as_in_srv,helpers::names_equal,helpers::test_n_name_fields"
-//   bound="type SRV class IN; 6 fixed octets + 9 concrete name-field shapes (root, 1-octet label, same + junk octet, 2-octet label, truncated label, reserved label type, two labels, two 3-octet labels, root + junk) for each RDATA, all 45 unordered pairs, both orders; symbolic label contents, fixed fields, junk; unwind 12"
-//   sym="content octets" stubs="eq_ignore_ascii_case"
-#[kani::proof]
-#[kani::unwind(12)]
-#[kani::stub(<[u8]>::eq_ignore_ascii_case, eq_ic_model)]
-fn c19_srv_skeleton() {
-    sk_pairs_one_name(IN, 33, 6, 0);
-}
-
-// @harness props=C19 tier=quick mem=4 t=900 fn="Rdata::equals,Rdata::equals_as_ch_a,helpers::test_n_name_fields"
-//   bound="type A class CH; 9 concrete name-field shapes (root, 1-octet label, same + junk octet, 2-octet label, truncated label, reserved label type, two labels, two 3-octet labels, root + junk) for each RDATA, all 45 unordered pairs, both orders; symbolic label contents, fixed fields, junk; then 2 address octets; unwind 12"
-//   sym="content octets" stubs="eq_ignore_ascii_case"
-#[kani::proof]
-#[kani::unwind(12)]
-#[kani::stub(<[u8]>::eq_ignore_ascii_case, eq_ic_model)]
-fn c19_ch_a_skeleton() {
-    sk_pairs_one_name(CH, 1, 0, 2);
-}
-
-// @harness props=C19 tier=quick mem=4 t=900 fn="Rdata::equals,Rdata::equals_as_minfo,helpers::test_n_name_fields"
-//   bound="type MINFO, any class; each of the two names of each RDATA from {root, 1-octet label, same + junk, truncated label} (256 ordered pairs); symbolic label contents and junk; unwind 8"
-//   sym="content octets, class:u16" stubs="eq_ignore_ascii_case"
-#[kani::proof]
-#[kani::unwind(8)]
-#[kani::stub(<[u8]>::eq_ignore_ascii_case, eq_ic_model)]
-fn c19_minfo_skeleton() {
-    sk_pairs_two_names(any_class(), 14, &[0, 1, 2, 4], 0, 0);
-}
-
-// @harness props=C19 tier=quick mem=6 t=1200 fn="Rdata::equals,Rdata::equals_as_soa,helpers::test_n_name_fields"
-//   bound="type SOA, any class; each of the two names of each RDATA from {root, 1-octet label, 2-octet label} (81 ordered pairs) followed by 20 symbolic octets; and the same with 19 octets after one or both (malformed); unwind 23"
-//   sym="content octets, 20 fixed octets, class:u16" stubs="eq_ignore_ascii_case"
-#[kani::proof]
-#[kani::unwind(23)]
-#[kani::stub(<[u8]>::eq_ignore_ascii_case, eq_ic_model)]
-fn c19_soa_skeleton() {
-    let class = any_class();
-    sk_pairs_two_names(class, 6, &[0, 1, 3], 20, 20);
-    sk_pairs_two_names(class, 6, &[0, 1], 19, 19);
-    sk_pairs_two_names(class, 6, &[0, 1], 20, 19);
-}
-
 // ---- NS: the full length grid {0,1,3,4,5}^2, both orders -------------------
 
-// @harness props=C19 tier=thorough mem=6 t=1800 fn="Rdata::equals,helpers::names_equal,helpers::test_n_name_fields,Name::try_from_uncompressed,<Name as PartialEq>::eq,<Label as PartialEq>::eq"
+// @harness props=C19 tier=thorough mem=3 t=900 fn="Rdata::equals,helpers::names_equal,helpers::test_n_name_fields,Name::try_from_uncompressed,<Name as PartialEq>::eq,<Label as PartialEq>::eq"
 //   bound="type NS, any class; RDATA lengths (0,0) (0,1) (0,3) (0,4) (0,5), all octet values; unwind 7"
 //   sym="a:[u8;0], b:[u8;0|1|3|4|5], class:u16" stubs="eq_ignore_ascii_case"
 #[kani::proof]
@@ -594,24 +487,20 @@ fn c19_ns_pair_0_x() {
     kani::cover!(!s.equal, "RDATA of different lengths are unequal");
 }
 
-// @harness props=C19 tier=thorough mem=6 t=1800 fn="Rdata::equals,helpers::names_equal,helpers::test_n_name_fields,Name::try_from_uncompressed,<Name as PartialEq>::eq,<Label as PartialEq>::eq"
-//   bound="type NS, any class; RDATA lengths (1,1) (1,3) (1,4) (1,5), all octet values; unwind 7"
-//   sym="a:[u8;1], b:[u8;1|3|4|5], class:u16" stubs="eq_ignore_ascii_case"
+// @harness props=C19 tier=thorough mem=4 t=1200 fn="Rdata::equals,helpers::names_equal,helpers::test_n_name_fields,Name::try_from_uncompressed,<Name as PartialEq>::eq,<Label as PartialEq>::eq"
+//   bound="type NS, any class; RDATA lengths (1,1), all octet values; unwind 4"
+//   sym="a:[u8;1], b:[u8;1], class:u16" stubs="eq_ignore_ascii_case"
 #[kani::proof]
-#[kani::unwind(7)]
+#[kani::unwind(4)]
 #[kani::stub(<[u8]>::eq_ignore_ascii_case, eq_ic_model)]
-fn c19_ns_pair_1_x() {
-    let class = any_class();
-    let s = pair::<1, 1>(class, 2);
+fn c19_ns_pair_1_1() {
+    let s = pair::<1, 1>(any_class(), 2);
     kani::cover!(s.equal, "root name equals root name");
     kani::cover!(!s.equal, "distinct one-octet RDATA are unequal");
-    pair::<1, 3>(class, 2);
-    pair::<1, 4>(class, 2);
-    pair::<1, 5>(class, 2);
 }
 
 // @harness props=C19 tier=quick mem=6 t=1200 fn="Rdata::equals,helpers::names_equal,helpers::test_n_name_fields,Name::try_from_uncompressed,<Name as PartialEq>::eq,<Label as PartialEq>::eq"
-//   bound="type NS, any class; RDATA lengths (3,3), all octet values; unwind 5"
+//   bound="type NS, any class; RDATA lengths (3,3), all octet values, both orders; unwind 5"
 //   sym="a:[u8;3], b:[u8;3], class:u16" stubs="eq_ignore_ascii_case"
 #[kani::proof]
 #[kani::unwind(5)]
@@ -623,7 +512,7 @@ fn c19_ns_pair_3_3() {
 }
 
 // @harness props=C19 tier=quick mem=7 t=1500 fn="Rdata::equals,helpers::names_equal,helpers::test_n_name_fields,Name::try_from_uncompressed,<Name as PartialEq>::eq,<Label as PartialEq>::eq"
-//   bound="type NS, any class; RDATA lengths (3,4), all octet values; unwind 6"
+//   bound="type NS, any class; RDATA lengths (3,4), all octet values, both orders; unwind 6"
 //   sym="a:[u8;3], b:[u8;4], class:u16" stubs="eq_ignore_ascii_case"
 #[kani::proof]
 #[kani::unwind(6)]
@@ -633,8 +522,41 @@ fn c19_ns_pair_3_4() {
     kani::cover!(!s.equal, "RDATA of different lengths are unequal");
 }
 
+// @harness props=C19 tier=thorough mem=6 t=1800 fn="Rdata::equals,helpers::names_equal,helpers::test_n_name_fields,Name::try_from_uncompressed,<Name as PartialEq>::eq,<Label as PartialEq>::eq"
+//   bound="type NS, any class; RDATA lengths (1,3), all octet values, both orders; unwind 5"
+//   sym="a:[u8;1], b:[u8;3], class:u16" stubs="eq_ignore_ascii_case"
+#[kani::proof]
+#[kani::unwind(5)]
+#[kani::stub(<[u8]>::eq_ignore_ascii_case, eq_ic_model)]
+fn c19_ns_pair_1_3() {
+    let s = pair::<1, 3>(any_class(), 2);
+    kani::cover!(!s.equal, "RDATA of different lengths are unequal");
+}
+
+// @harness props=C19 tier=thorough mem=6 t=1800 fn="Rdata::equals,helpers::names_equal,helpers::test_n_name_fields,Name::try_from_uncompressed,<Name as PartialEq>::eq,<Label as PartialEq>::eq"
+//   bound="type NS, any class; RDATA lengths (1,4), all octet values, both orders; unwind 6"
+//   sym="a:[u8;1], b:[u8;4], class:u16" stubs="eq_ignore_ascii_case"
+#[kani::proof]
+#[kani::unwind(6)]
+#[kani::stub(<[u8]>::eq_ignore_ascii_case, eq_ic_model)]
+fn c19_ns_pair_1_4() {
+    let s = pair::<1, 4>(any_class(), 2);
+    kani::cover!(!s.equal, "RDATA of different lengths are unequal");
+}
+
+// @harness props=C19 tier=thorough mem=7 t=2400 fn="Rdata::equals,helpers::names_equal,helpers::test_n_name_fields,Name::try_from_uncompressed,<Name as PartialEq>::eq,<Label as PartialEq>::eq"
+//   bound="type NS, any class; RDATA lengths (1,5), all octet values, both orders; unwind 7"
+//   sym="a:[u8;1], b:[u8;5], class:u16" stubs="eq_ignore_ascii_case"
+#[kani::proof]
+#[kani::unwind(7)]
+#[kani::stub(<[u8]>::eq_ignore_ascii_case, eq_ic_model)]
+fn c19_ns_pair_1_5() {
+    let s = pair::<1, 5>(any_class(), 2);
+    kani::cover!(!s.equal, "RDATA of different lengths are unequal");
+}
+
 // @harness props=C19 tier=thorough mem=8 t=2400 fn="Rdata::equals,helpers::names_equal,helpers::test_n_name_fields,Name::try_from_uncompressed,<Name as PartialEq>::eq,<Label as PartialEq>::eq"
-//   bound="type NS, any class; RDATA lengths (3,5), all octet values; unwind 7"
+//   bound="type NS, any class; RDATA lengths (3,5), all octet values, both orders; unwind 7"
 //   sym="a:[u8;3], b:[u8;5], class:u16" stubs="eq_ignore_ascii_case"
 #[kani::proof]
 #[kani::unwind(7)]
@@ -645,7 +567,7 @@ fn c19_ns_pair_3_5() {
 }
 
 // @harness props=C19 tier=thorough mem=8 t=2400 fn="Rdata::equals,helpers::names_equal,helpers::test_n_name_fields,Name::try_from_uncompressed,<Name as PartialEq>::eq,<Label as PartialEq>::eq"
-//   bound="type NS, any class; RDATA lengths (4,4), all octet values; unwind 6"
+//   bound="type NS, any class; RDATA lengths (4,4), all octet values, both orders; unwind 6"
 //   sym="a:[u8;4], b:[u8;4], class:u16" stubs="eq_ignore_ascii_case"
 #[kani::proof]
 #[kani::unwind(6)]
@@ -656,8 +578,8 @@ fn c19_ns_pair_4_4() {
     kani::cover!(!s.equal && s.same_up_to_case, "unequal RDATA that differ only in ASCII case (malformed, or case outside a name)");
 }
 
-// @harness props=C19 tier=thorough mem=10 t=3000 fn="Rdata::equals,helpers::names_equal,helpers::test_n_name_fields,Name::try_from_uncompressed,<Name as PartialEq>::eq,<Label as PartialEq>::eq"
-//   bound="type NS, any class; RDATA lengths (4,5), all octet values; unwind 7"
+// @harness props=C19 tier=thorough mem=9 t=3000 fn="Rdata::equals,helpers::names_equal,helpers::test_n_name_fields,Name::try_from_uncompressed,<Name as PartialEq>::eq,<Label as PartialEq>::eq"
+//   bound="type NS, any class; RDATA lengths (4,5), all octet values, both orders; unwind 7"
 //   sym="a:[u8;4], b:[u8;5], class:u16" stubs="eq_ignore_ascii_case"
 #[kani::proof]
 #[kani::unwind(7)]
@@ -668,7 +590,7 @@ fn c19_ns_pair_4_5() {
 }
 
 // @harness props=C19 tier=thorough mem=10 t=3600 fn="Rdata::equals,helpers::names_equal,helpers::test_n_name_fields,Name::try_from_uncompressed,<Name as PartialEq>::eq,<Label as PartialEq>::eq"
-//   bound="type NS, any class; RDATA lengths (5,5), all octet values; unwind 7"
+//   bound="type NS, any class; RDATA lengths (5,5), all octet values, both orders; unwind 7"
 //   sym="a:[u8;5], b:[u8;5], class:u16" stubs="eq_ignore_ascii_case"
 #[kani::proof]
 #[kani::unwind(7)]
@@ -681,7 +603,7 @@ fn c19_ns_pair_5_5() {
 
 // ---- the other single-name types: (3,3) and (3,4) = name vs name+junk ------
 
-// @harness props=C19 tier=thorough mem=8 t=2400 fn="Rdata::equals,helpers::names_equal,helpers::test_n_name_fields,Name::try_from_uncompressed,<Name as PartialEq>::eq,<Label as PartialEq>::eq"
+// @harness props=C19 tier=thorough mem=7 t=2400 fn="Rdata::equals,helpers::names_equal,helpers::test_n_name_fields,Name::try_from_uncompressed,<Name as PartialEq>::eq,<Label as PartialEq>::eq"
 //   bound="type MD (3), any class; RDATA lengths (3,3) and (3,4) in the order (a,b), all octet values; unwind 6"
 //   sym="a:[u8;3], b:[u8;3]; a2:[u8;3], b2:[u8;4]; class:u16" stubs="eq_ignore_ascii_case"
 #[kani::proof]
@@ -695,7 +617,7 @@ fn c19_md_pairs() {
     kani::cover!(!s.equal, "RDATA of different lengths are unequal");
 }
 
-// @harness props=C19 tier=thorough mem=8 t=2400 fn="Rdata::equals,helpers::names_equal,helpers::test_n_name_fields,Name::try_from_uncompressed,<Name as PartialEq>::eq,<Label as PartialEq>::eq"
+// @harness props=C19 tier=thorough mem=7 t=2400 fn="Rdata::equals,helpers::names_equal,helpers::test_n_name_fields,Name::try_from_uncompressed,<Name as PartialEq>::eq,<Label as PartialEq>::eq"
 //   bound="type MF (4), any class; RDATA lengths (3,3) and (3,4) in the order (a,b), all octet values; unwind 6"
 //   sym="a:[u8;3], b:[u8;3]; a2:[u8;3], b2:[u8;4]; class:u16" stubs="eq_ignore_ascii_case"
 #[kani::proof]
@@ -709,7 +631,7 @@ fn c19_mf_pairs() {
     kani::cover!(!s.equal, "RDATA of different lengths are unequal");
 }
 
-// @harness props=C19 tier=thorough mem=8 t=2400 fn="Rdata::equals,helpers::names_equal,helpers::test_n_name_fields,Name::try_from_uncompressed,<Name as PartialEq>::eq,<Label as PartialEq>::eq"
+// @harness props=C19 tier=thorough mem=7 t=2400 fn="Rdata::equals,helpers::names_equal,helpers::test_n_name_fields,Name::try_from_uncompressed,<Name as PartialEq>::eq,<Label as PartialEq>::eq"
 //   bound="type CNAME (5), any class; RDATA lengths (3,3) and (3,4) in the order (a,b), all octet values; unwind 6"
 //   sym="a:[u8;3], b:[u8;3]; a2:[u8;3], b2:[u8;4]; class:u16" stubs="eq_ignore_ascii_case"
 #[kani::proof]
@@ -723,7 +645,7 @@ fn c19_cname_pairs() {
     kani::cover!(!s.equal, "RDATA of different lengths are unequal");
 }
 
-// @harness props=C19 tier=thorough mem=8 t=2400 fn="Rdata::equals,helpers::names_equal,helpers::test_n_name_fields,Name::try_from_uncompressed,<Name as PartialEq>::eq,<Label as PartialEq>::eq"
+// @harness props=C19 tier=thorough mem=7 t=2400 fn="Rdata::equals,helpers::names_equal,helpers::test_n_name_fields,Name::try_from_uncompressed,<Name as PartialEq>::eq,<Label as PartialEq>::eq"
 //   bound="type MB (7), any class; RDATA lengths (3,3) and (3,4) in the order (a,b), all octet values; unwind 6"
 //   sym="a:[u8;3], b:[u8;3]; a2:[u8;3], b2:[u8;4]; class:u16" stubs="eq_ignore_ascii_case"
 #[kani::proof]
@@ -737,7 +659,7 @@ fn c19_mb_pairs() {
     kani::cover!(!s.equal, "RDATA of different lengths are unequal");
 }
 
-// @harness props=C19 tier=thorough mem=8 t=2400 fn="Rdata::equals,helpers::names_equal,helpers::test_n_name_fields,Name::try_from_uncompressed,<Name as PartialEq>::eq,<Label as PartialEq>::eq"
+// @harness props=C19 tier=thorough mem=7 t=2400 fn="Rdata::equals,helpers::names_equal,helpers::test_n_name_fields,Name::try_from_uncompressed,<Name as PartialEq>::eq,<Label as PartialEq>::eq"
 //   bound="type MG (8), any class; RDATA lengths (3,3) and (3,4) in the order (a,b), all octet values; unwind 6"
 //   sym="a:[u8;3], b:[u8;3]; a2:[u8;3], b2:[u8;4]; class:u16" stubs="eq_ignore_ascii_case"
 #[kani::proof]
@@ -751,7 +673,7 @@ fn c19_mg_pairs() {
     kani::cover!(!s.equal, "RDATA of different lengths are unequal");
 }
 
-// @harness props=C19 tier=thorough mem=8 t=2400 fn="Rdata::equals,helpers::names_equal,helpers::test_n_name_fields,Name::try_from_uncompressed,<Name as PartialEq>::eq,<Label as PartialEq>::eq"
+// @harness props=C19 tier=thorough mem=7 t=2400 fn="Rdata::equals,helpers::names_equal,helpers::test_n_name_fields,Name::try_from_uncompressed,<Name as PartialEq>::eq,<Label as PartialEq>::eq"
 //   bound="type MR (9), any class; RDATA lengths (3,3) and (3,4) in the order (a,b), all octet values; unwind 6"
 //   sym="a:[u8;3], b:[u8;3]; a2:[u8;3], b2:[u8;4]; class:u16" stubs="eq_ignore_ascii_case"
 #[kani::proof]
@@ -765,7 +687,7 @@ fn c19_mr_pairs() {
     kani::cover!(!s.equal, "RDATA of different lengths are unequal");
 }
 
-// @harness props=C19 tier=thorough mem=8 t=2400 fn="Rdata::equals,helpers::names_equal,helpers::test_n_name_fields,Name::try_from_uncompressed,<Name as PartialEq>::eq,<Label as PartialEq>::eq"
+// @harness props=C19 tier=thorough mem=7 t=2400 fn="Rdata::equals,helpers::names_equal,helpers::test_n_name_fields,Name::try_from_uncompressed,<Name as PartialEq>::eq,<Label as PartialEq>::eq"
 //   bound="type PTR (12), any class; RDATA lengths (3,3) and (3,4) in the order (a,b), all octet values; unwind 6"
 //   sym="a:[u8;3], b:[u8;3]; a2:[u8;3], b2:[u8;4]; class:u16" stubs="eq_ignore_ascii_case"
 #[kani::proof]
@@ -781,32 +703,20 @@ fn c19_ptr_pairs() {
 
 // ---- type MX (15): u16 preference + name ----
 
-// @harness props=C19 tier=quick mem=6 t=1200 fn="Rdata::equals,Rdata::equals_as_mx,helpers::names_equal,helpers::test_n_name_fields"
-//   bound="type MX (15): u16 preference + name, any class; RDATA lengths (5,5), all octet values; unwind 7"
+// @harness props=C19 tier=thorough mem=8 t=2400 fn="Rdata::equals,Rdata::equals_as_mx,helpers::names_equal,helpers::test_n_name_fields"
+//   bound="type MX (15): u16 preference + name, any class; RDATA lengths (5,5) in the order (a,b), all octet values; unwind 7"
 //   sym="a:[u8;5], b:[u8;5], class:u16" stubs="eq_ignore_ascii_case"
 #[kani::proof]
 #[kani::unwind(7)]
 #[kani::stub(<[u8]>::eq_ignore_ascii_case, eq_ic_model)]
 fn c19_mx_pair_5_5() {
-    let s = pair::<5, 5>(any_class(), 15);
+    let s = pair_one_way::<5, 5>(any_class(), 15);
     kani::cover!(s.equal && !s.same_octets, "equal RDATA whose octets differ (case-insensitive name match)");
     kani::cover!(!s.equal && s.same_up_to_case, "unequal RDATA that differ only in ASCII case (malformed, or case outside a name)");
 }
 
-// @harness props=C19 tier=thorough mem=8 t=2400 fn="Rdata::equals,Rdata::equals_as_mx,helpers::names_equal,helpers::test_n_name_fields"
-//   bound="type MX (15): u16 preference + name, any class; RDATA lengths (6,6), all octet values; unwind 8"
-//   sym="a:[u8;6], b:[u8;6], class:u16" stubs="eq_ignore_ascii_case"
-#[kani::proof]
-#[kani::unwind(8)]
-#[kani::stub(<[u8]>::eq_ignore_ascii_case, eq_ic_model)]
-fn c19_mx_pair_6_6() {
-    let s = pair::<6, 6>(any_class(), 15);
-    kani::cover!(s.equal && !s.same_octets, "equal RDATA whose octets differ (case-insensitive name match)");
-    kani::cover!(!s.equal && s.same_up_to_case, "unequal RDATA that differ only in ASCII case (malformed, or case outside a name)");
-}
-
-// @harness props=C19 tier=thorough mem=6 t=1800 fn="Rdata::equals,Rdata::equals_as_mx,helpers::names_equal,helpers::test_n_name_fields"
-//   bound="type MX (15): u16 preference + name, any class; RDATA lengths (1,1) (1,2) (2,2) (2,3) (3,3) (5,6), all octet values; unwind 8"
+// @harness props=C19 tier=thorough mem=4 t=1200 fn="Rdata::equals,Rdata::equals_as_mx,helpers::names_equal,helpers::test_n_name_fields"
+//   bound="type MX (15): u16 preference + name, any class; RDATA lengths (1,1) (1,2) (2,2) (2,3) (5,6) (too short for a name, or different lengths), all octet values, both orders; unwind 8"
 //   sym="pairs of [u8;LA],[u8;LB]" stubs="eq_ignore_ascii_case"
 #[kani::proof]
 #[kani::unwind(8)]
@@ -817,39 +727,26 @@ fn c19_mx_pair_short() {
     pair::<1, 2>(class, 15);
     pair::<2, 2>(class, 15);
     pair::<2, 3>(class, 15);
-    pair::<3, 3>(class, 15);
     let s = pair::<5, 6>(class, 15);
     kani::cover!(!s.equal, "RDATA of different lengths are unequal");
 }
 
 // ---- type SRV (33): 6 octets + name ----
 
-// @harness props=C19 tier=quick mem=6 t=1200 fn="Rdata::equals,Rdata::equals_as_in_srv,helpers::names_equal,helpers::test_n_name_fields"
-//   bound="type SRV (33): 6 octets + name, class IN; RDATA lengths (9,9), all octet values; unwind 11"
+// @harness props=C19 tier=thorough mem=8 t=2400 fn="Rdata::equals,Rdata::equals_as_in_srv,helpers::names_equal,helpers::test_n_name_fields"
+//   bound="type SRV (33): 6 octets + name, class IN; RDATA lengths (9,9) in the order (a,b), all octet values; unwind 11"
 //   sym="a:[u8;9], b:[u8;9]" stubs="eq_ignore_ascii_case"
 #[kani::proof]
 #[kani::unwind(11)]
 #[kani::stub(<[u8]>::eq_ignore_ascii_case, eq_ic_model)]
 fn c19_srv_pair_9_9() {
-    let s = pair::<9, 9>(IN, 33);
+    let s = pair_one_way::<9, 9>(IN, 33);
     kani::cover!(s.equal && !s.same_octets, "equal RDATA whose octets differ (case-insensitive name match)");
     kani::cover!(!s.equal && s.same_up_to_case, "unequal RDATA that differ only in ASCII case (malformed, or case outside a name)");
 }
 
-// @harness props=C19 tier=thorough mem=8 t=2400 fn="Rdata::equals,Rdata::equals_as_in_srv,helpers::names_equal,helpers::test_n_name_fields"
-//   bound="type SRV (33): 6 octets + name, class IN; RDATA lengths (10,10), all octet values; unwind 12"
-//   sym="a:[u8;10], b:[u8;10]" stubs="eq_ignore_ascii_case"
-#[kani::proof]
-#[kani::unwind(12)]
-#[kani::stub(<[u8]>::eq_ignore_ascii_case, eq_ic_model)]
-fn c19_srv_pair_10_10() {
-    let s = pair::<10, 10>(IN, 33);
-    kani::cover!(s.equal && !s.same_octets, "equal RDATA whose octets differ (case-insensitive name match)");
-    kani::cover!(!s.equal && s.same_up_to_case, "unequal RDATA that differ only in ASCII case (malformed, or case outside a name)");
-}
-
-// @harness props=C19 tier=thorough mem=6 t=1800 fn="Rdata::equals,Rdata::equals_as_in_srv,helpers::names_equal,helpers::test_n_name_fields"
-//   bound="type SRV (33): 6 octets + name, class IN; RDATA lengths (5,5) (5,6) (6,6) (7,7) (9,10), all octet values; unwind 12"
+// @harness props=C19 tier=thorough mem=4 t=1200 fn="Rdata::equals,Rdata::equals_as_in_srv,helpers::names_equal,helpers::test_n_name_fields"
+//   bound="type SRV (33): 6 octets + name, class IN; RDATA lengths (5,5) (5,6) (6,6) (9,10) (too short for a name, or different lengths), all octet values, both orders; unwind 12"
 //   sym="pairs of [u8;LA],[u8;LB]" stubs="eq_ignore_ascii_case"
 #[kani::proof]
 #[kani::unwind(12)]
@@ -859,56 +756,40 @@ fn c19_srv_pair_short() {
     pair::<5, 5>(class, 33);
     pair::<5, 6>(class, 33);
     pair::<6, 6>(class, 33);
-    pair::<7, 7>(class, 33);
     let s = pair::<9, 10>(class, 33);
     kani::cover!(!s.equal, "RDATA of different lengths are unequal");
 }
 
 // ---- type A (1) in class CH: name + 16-bit address ----
 
-// @harness props=C19 tier=quick mem=6 t=1200 fn="Rdata::equals,Rdata::equals_as_ch_a,helpers::test_n_name_fields"
-//   bound="type A (1) in class CH: name + 16-bit address, class CH; RDATA lengths (5,5), all octet values; unwind 7"
+// @harness props=C19 tier=thorough mem=8 t=2400 fn="Rdata::equals,Rdata::equals_as_ch_a,helpers::test_n_name_fields"
+//   bound="type A (1) in class CH: name + 16-bit address, class CH; RDATA lengths (5,5) in the order (a,b), all octet values; unwind 7"
 //   sym="a:[u8;5], b:[u8;5]" stubs="eq_ignore_ascii_case"
 #[kani::proof]
 #[kani::unwind(7)]
 #[kani::stub(<[u8]>::eq_ignore_ascii_case, eq_ic_model)]
 fn c19_ch_a_pair_5_5() {
-    let s = pair::<5, 5>(CH, 1);
+    let s = pair_one_way::<5, 5>(CH, 1);
     kani::cover!(s.equal && !s.same_octets, "equal RDATA whose octets differ (case-insensitive name match)");
     kani::cover!(!s.equal && s.same_up_to_case, "unequal RDATA that differ only in ASCII case (malformed, or case outside a name)");
 }
 
-// @harness props=C19 tier=thorough mem=8 t=2400 fn="Rdata::equals,Rdata::equals_as_ch_a,helpers::test_n_name_fields"
-//   bound="type A (1) in class CH: name + 16-bit address, class CH; RDATA lengths (6,6), all octet values; unwind 8"
-//   sym="a:[u8;6], b:[u8;6]" stubs="eq_ignore_ascii_case"
-#[kani::proof]
-#[kani::unwind(8)]
-#[kani::stub(<[u8]>::eq_ignore_ascii_case, eq_ic_model)]
-fn c19_ch_a_pair_6_6() {
-    let s = pair::<6, 6>(CH, 1);
-    kani::cover!(s.equal && !s.same_octets, "equal RDATA whose octets differ (case-insensitive name match)");
-    kani::cover!(!s.equal && s.same_up_to_case, "unequal RDATA that differ only in ASCII case (malformed, or case outside a name)");
-}
-
-// @harness props=C19 tier=thorough mem=6 t=1800 fn="Rdata::equals,Rdata::equals_as_ch_a,helpers::test_n_name_fields"
-//   bound="type A (1) in class CH: name + 16-bit address, class CH; RDATA lengths (1,1) (2,2) (2,3) (3,3) (5,6), all octet values; unwind 8"
+// @harness props=C19 tier=thorough mem=4 t=1200 fn="Rdata::equals,Rdata::equals_as_ch_a,helpers::test_n_name_fields"
+//   bound="type A (1) in class CH: name + 16-bit address, class CH; RDATA lengths (5,6) (3,4) (different lengths), all octet values, both orders; unwind 8"
 //   sym="pairs of [u8;LA],[u8;LB]" stubs="eq_ignore_ascii_case"
 #[kani::proof]
 #[kani::unwind(8)]
 #[kani::stub(<[u8]>::eq_ignore_ascii_case, eq_ic_model)]
 fn c19_ch_a_pair_short() {
     let class = CH;
-    pair::<1, 1>(class, 1);
-    pair::<2, 2>(class, 1);
-    pair::<2, 3>(class, 1);
-    pair::<3, 3>(class, 1);
-    let s = pair::<5, 6>(class, 1);
+    pair::<5, 6>(class, 1);
+    let s = pair::<3, 4>(class, 1);
     kani::cover!(!s.equal, "RDATA of different lengths are unequal");
 }
 
 // ---- type MINFO (14): two names ----
 
-// @harness props=C19 tier=quick mem=8 t=1800 fn="Rdata::equals,Rdata::equals_as_minfo,helpers::test_n_name_fields"
+// @harness props=C19 tier=thorough mem=8 t=2400 fn="Rdata::equals,Rdata::equals_as_minfo,helpers::test_n_name_fields"
 //   bound="type MINFO (14): two names, any class; RDATA lengths (4,4) in the order (a,b), all octet values; unwind 6"
 //   sym="a:[u8;4], b:[u8;4], class:u16" stubs="eq_ignore_ascii_case"
 #[kani::proof]
@@ -920,77 +801,107 @@ fn c19_minfo_pair_4_4() {
     kani::cover!(!s.equal && s.same_up_to_case, "unequal RDATA that differ only in ASCII case (malformed, or case outside a name)");
 }
 
-// @harness props=C19 tier=thorough mem=10 t=3000 fn="Rdata::equals,Rdata::equals_as_minfo,helpers::test_n_name_fields"
-//   bound="type MINFO (14): two names, any class; RDATA lengths (6,6) in the order (a,b), all octet values; unwind 8"
-//   sym="a:[u8;6], b:[u8;6], class:u16" stubs="eq_ignore_ascii_case"
-#[kani::proof]
-#[kani::unwind(8)]
-#[kani::stub(<[u8]>::eq_ignore_ascii_case, eq_ic_model)]
-fn c19_minfo_pair_6_6() {
-    let s = pair_one_way::<6, 6>(any_class(), 14);
-    kani::cover!(s.equal && !s.same_octets, "equal RDATA whose octets differ (case-insensitive name match)");
-    kani::cover!(!s.equal && s.same_up_to_case, "unequal RDATA that differ only in ASCII case (malformed, or case outside a name)");
-}
-
-// @harness props=C19 tier=thorough mem=6 t=1800 fn="Rdata::equals,Rdata::equals_as_minfo,helpers::test_n_name_fields"
-//   bound="type MINFO (14): two names, any class; RDATA lengths (1,1) (2,2) (2,4) (3,3) (4,6), all octet values; unwind 8"
+// @harness props=C19 tier=thorough mem=4 t=1200 fn="Rdata::equals,Rdata::equals_as_minfo,helpers::test_n_name_fields"
+//   bound="type MINFO (14): two names, any class; RDATA lengths (2,4) (4,6) (different lengths), all octet values, both orders; unwind 8"
 //   sym="pairs of [u8;LA],[u8;LB]" stubs="eq_ignore_ascii_case"
 #[kani::proof]
 #[kani::unwind(8)]
 #[kani::stub(<[u8]>::eq_ignore_ascii_case, eq_ic_model)]
 fn c19_minfo_pair_short() {
     let class = any_class();
-    pair::<1, 1>(class, 14);
-    pair::<2, 2>(class, 14);
     pair::<2, 4>(class, 14);
-    pair::<3, 3>(class, 14);
     let s = pair::<4, 6>(class, 14);
     kani::cover!(!s.equal, "RDATA of different lengths are unequal");
 }
 
-// ---- type SOA (6): two names + 20 octets ----
+// ---- skeleton pairs: SOA, and longer names ---------------------------------
 
-// @harness props=C19 tier=thorough mem=10 t=3000 fn="Rdata::equals,Rdata::equals_as_soa,helpers::test_n_name_fields"
-//   bound="type SOA (6): two names + 20 octets, any class; RDATA lengths (22,22) in the order (a,b), all octet values; unwind 24"
-//   sym="a:[u8;22], b:[u8;22], class:u16" stubs="eq_ignore_ascii_case"
-#[kani::proof]
-#[kani::unwind(24)]
-#[kani::stub(<[u8]>::eq_ignore_ascii_case, eq_ic_model)]
-fn c19_soa_pair_22_22() {
-    let s = pair_one_way::<22, 22>(any_class(), 6);
-    kani::cover!(s.equal && !s.same_octets, "equal RDATA whose octets differ (case-insensitive name match)");
-    kani::cover!(!s.equal && s.same_up_to_case, "unequal RDATA that differ only in ASCII case (malformed, or case outside a name)");
-}
-
-// @harness props=C19 tier=thorough mem=12 t=3600 fn="Rdata::equals,Rdata::equals_as_soa,helpers::test_n_name_fields"
-//   bound="type SOA (6): two names + 20 octets, any class; RDATA lengths (24,24) in the order (a,b), all octet values; unwind 26"
-//   sym="a:[u8;24], b:[u8;24], class:u16" stubs="eq_ignore_ascii_case"
+// @harness props=C19 tier=thorough mem=5 t=1800 fn="Rdata::equals,Rdata::equals_as_soa,helpers::test_n_name_fields"
+//   bound="type SOA, any class; both RDATA = 1-octet-label name, root name, 20 octets (24 octets, well formed); symbolic label contents, fixed-field and junk octets; both orders, reflexivity; unwind 26"
+//   sym="content octets" stubs="eq_ignore_ascii_case"
 #[kani::proof]
 #[kani::unwind(26)]
 #[kani::stub(<[u8]>::eq_ignore_ascii_case, eq_ic_model)]
-fn c19_soa_pair_24_24() {
-    let s = pair_one_way::<24, 24>(any_class(), 6);
+fn c19_soa_skeleton_wf() {
+    let (a, la) = sk_rdata(0, 1, Some(0), 20);
+    let (b, lb) = sk_rdata(0, 1, Some(0), 20);
+    let s = sk_check(&a[..la], &b[..lb], any_class(), 6);
     kani::cover!(s.equal && !s.same_octets, "equal RDATA whose octets differ (case-insensitive name match)");
-    kani::cover!(!s.equal && s.same_up_to_case, "unequal RDATA that differ only in ASCII case (malformed, or case outside a name)");
+    kani::cover!(!s.equal, "unequal RDATA");
 }
 
-// @harness props=C19 tier=thorough mem=6 t=1800 fn="Rdata::equals,Rdata::equals_as_soa,helpers::test_n_name_fields"
-//   bound="type SOA (6): two names + 20 octets, any class; RDATA lengths (20,20) (21,22) (22,24), all octet values; unwind 26"
-//   sym="pairs of [u8;LA],[u8;LB]" stubs="eq_ignore_ascii_case"
+// @harness props=C19 tier=thorough mem=4 t=1200 fn="Rdata::equals,Rdata::equals_as_soa,helpers::test_n_name_fields"
+//   bound="type SOA, any class; a = 1-octet-label name, root, 20 octets; b = root, 1-octet-label name, 20 octets (both 24 octets, well formed, names differ); symbolic label contents, fixed-field and junk octets; both orders, reflexivity; unwind 26"
+//   sym="content octets" stubs="eq_ignore_ascii_case"
 #[kani::proof]
 #[kani::unwind(26)]
 #[kani::stub(<[u8]>::eq_ignore_ascii_case, eq_ic_model)]
-fn c19_soa_pair_short() {
-    let class = any_class();
-    pair::<20, 20>(class, 6);
-    pair::<21, 22>(class, 6);
-    let s = pair::<22, 24>(class, 6);
-    kani::cover!(!s.equal, "RDATA of different lengths are unequal");
+fn c19_soa_skeleton_split() {
+    let (a, la) = sk_rdata(0, 1, Some(0), 20);
+    let (b, lb) = sk_rdata(0, 0, Some(1), 20);
+    let s = sk_check(&a[..la], &b[..lb], any_class(), 6);
+    kani::cover!(!s.equal, "unequal RDATA");
+}
+
+// @harness props=C19 tier=thorough mem=4 t=1200 fn="Rdata::equals,Rdata::equals_as_soa,helpers::test_n_name_fields"
+//   bound="type SOA, any class; a = two 1-octet-label names + 18 octets (24 octets, malformed: fixed part too short); b = the same shape; symbolic label contents, fixed-field and junk octets; both orders, reflexivity; unwind 26"
+//   sym="content octets" stubs="eq_ignore_ascii_case"
+#[kani::proof]
+#[kani::unwind(26)]
+#[kani::stub(<[u8]>::eq_ignore_ascii_case, eq_ic_model)]
+fn c19_soa_skeleton_short() {
+    let (a, la) = sk_rdata(0, 1, Some(1), 18);
+    let (b, lb) = sk_rdata(0, 1, Some(1), 18);
+    let s = sk_check(&a[..la], &b[..lb], any_class(), 6);
+    kani::cover!(!s.equal && s.same_up_to_case, "malformed SOA RDATA differing only in case are unequal");
+    kani::cover!(s.equal, "identical malformed SOA RDATA are equal");
+}
+
+// @harness props=C19 tier=thorough mem=4 t=1200 fn="Rdata::equals,Rdata::equals_as_minfo,helpers::test_n_name_fields"
+//   bound="type MINFO, any class; both RDATA = two 1-octet-label names (6 octets); symbolic label contents, fixed-field and junk octets; both orders, reflexivity; unwind 8"
+//   sym="content octets" stubs="eq_ignore_ascii_case"
+#[kani::proof]
+#[kani::unwind(8)]
+#[kani::stub(<[u8]>::eq_ignore_ascii_case, eq_ic_model)]
+fn c19_minfo_skeleton_6_6() {
+    let (a, la) = sk_rdata(0, 1, Some(1), 0);
+    let (b, lb) = sk_rdata(0, 1, Some(1), 0);
+    let s = sk_check(&a[..la], &b[..lb], any_class(), 14);
+    kani::cover!(s.equal && !s.same_octets, "equal RDATA whose octets differ (case-insensitive name match)");
+    kani::cover!(!s.equal, "unequal RDATA");
+}
+
+// @harness props=C19 tier=thorough mem=4 t=1200 fn="Rdata::equals,helpers::names_equal,helpers::test_n_name_fields,Name::try_from_uncompressed,<Name as PartialEq>::eq,<Label as PartialEq>::eq"
+//   bound="type NS, any class; both RDATA = a name of two 3-octet labels (9 octets); symbolic label contents, fixed-field and junk octets; both orders, reflexivity; unwind 11"
+//   sym="content octets" stubs="eq_ignore_ascii_case"
+#[kani::proof]
+#[kani::unwind(11)]
+#[kani::stub(<[u8]>::eq_ignore_ascii_case, eq_ic_model)]
+fn c19_ns_skeleton_9_9() {
+    let (a, la) = sk_rdata(0, 7, None, 0);
+    let (b, lb) = sk_rdata(0, 7, None, 0);
+    let s = sk_check(&a[..la], &b[..lb], any_class(), 2);
+    kani::cover!(s.equal && !s.same_octets, "equal RDATA whose octets differ (case-insensitive name match)");
+    kani::cover!(!s.equal, "unequal RDATA");
+}
+
+// @harness props=C19 tier=thorough mem=4 t=1200 fn="Rdata::equals,Rdata::equals_as_in_srv,helpers::names_equal,helpers::test_n_name_fields"
+//   bound="type SRV class IN; both RDATA = 6 fixed octets + a name of two 3-octet labels (15 octets); symbolic label contents, fixed-field and junk octets; both orders, reflexivity; unwind 17"
+//   sym="content octets" stubs="eq_ignore_ascii_case"
+#[kani::proof]
+#[kani::unwind(17)]
+#[kani::stub(<[u8]>::eq_ignore_ascii_case, eq_ic_model)]
+fn c19_srv_skeleton_15_15() {
+    let (a, la) = sk_rdata(6, 7, None, 0);
+    let (b, lb) = sk_rdata(6, 7, None, 0);
+    let s = sk_check(&a[..la], &b[..lb], IN, 33);
+    kani::cover!(s.equal && !s.same_octets, "equal RDATA whose octets differ (case-insensitive name match)");
+    kani::cover!(!s.equal, "unequal RDATA");
 }
 
 // ---- everything outside the table: octet equality ----------------------------
 
-// @harness props=C19 tier=quick mem=4 t=900 fn="Rdata::equals (dispatch; all arms with the name helpers over-approximated)"
+// @harness props=C19 tier=quick mem=3 t=600 fn="Rdata::equals (dispatch; all arms with the name helpers over-approximated)"
 //   bound="EVERY class (u16) and type (u16) for which the reference table has no entry (includes A outside CH, SRV outside IN, TXT, AAAA, OPT, TSIG, unknown types); RDATA lengths (3,3) (3,4) (4,4), all octet values; unwind 8"
 //   sym="class:u16, type:u16, a,b symbolic" stubs="names_equal/test_n_name_fields -> arbitrary result (over-approximation)"
 #[kani::proof]
@@ -1009,7 +920,7 @@ fn c19_unlisted_types() {
     unlisted::<4, 4>(class, ty);
 }
 
-// @harness props=C19 tier=quick mem=4 t=900 fn="Rdata::equals"
+// @harness props=C19 tier=quick mem=2 t=300 fn="Rdata::equals"
 //   bound="concrete (class,type): IN A, HS A, CH SRV, IN TXT, IN AAAA, IN OPT, ANY TSIG, IN 0xff00; RDATA lengths (4,4) and (3,4), all octet values; no stubs; unwind 10"
 //   sym="a:[u8;4], b:[u8;4]; a2:[u8;3]"
 #[kani::proof]
@@ -1036,7 +947,7 @@ fn c19_other_types_real() {
 
 // ---- transitivity -----------------------------------------------------------
 
-// @harness props=C19 tier=quick mem=8 t=1800 fn="Rdata::equals,helpers::names_equal,helpers::test_n_name_fields,Name::try_from_uncompressed,<Name as PartialEq>::eq,<Label as PartialEq>::eq"
+// @harness props=C19 tier=thorough mem=8 t=1800 fn="Rdata::equals,helpers::names_equal,helpers::test_n_name_fields,Name::try_from_uncompressed,<Name as PartialEq>::eq,<Label as PartialEq>::eq"
 //   bound="type NS, any class; three RDATA of lengths (3,3,3), all octet values; unwind 5"
 //   sym="a,b,c:[u8;3], class:u16" stubs="eq_ignore_ascii_case"
 #[kani::proof]
@@ -1044,45 +955,21 @@ fn c19_other_types_real() {
 #[kani::stub(<[u8]>::eq_ignore_ascii_case, eq_ic_model)]
 fn c19_ns_triple_3_3_3() {
     let w = triple::<3, 3, 3>(any_class(), 2);
-    kani::cover!(w, "three pairwise octet-different names in one class");
+    kani::cover!(w, "a chain a ~ b ~ c through octet-different names");
 }
 
-// @harness props=C19 tier=thorough mem=10 t=3000 fn="Rdata::equals,helpers::names_equal,helpers::test_n_name_fields,Name::try_from_uncompressed,<Name as PartialEq>::eq,<Label as PartialEq>::eq"
-//   bound="type NS, any class; three RDATA of lengths (3,4,3) and (4,3,4), all octet values; unwind 6"
-//   sym="a,b,c symbolic, class:u16" stubs="eq_ignore_ascii_case"
+// @harness props=C19 tier=thorough mem=8 t=3000 fn="Rdata::equals,helpers::names_equal,helpers::test_n_name_fields,Name::try_from_uncompressed,<Name as PartialEq>::eq,<Label as PartialEq>::eq"
+//   bound="type NS, any class; three RDATA of lengths (3,4,3), all octet values; unwind 6"
+//   sym="a,c:[u8;3], b:[u8;4], class:u16" stubs="eq_ignore_ascii_case"
 #[kani::proof]
 #[kani::unwind(6)]
 #[kani::stub(<[u8]>::eq_ignore_ascii_case, eq_ic_model)]
 fn c19_ns_triple_3_4_3() {
-    let class = any_class();
-    triple::<3, 4, 3>(class, 2);
-    triple::<4, 3, 4>(class, 2);
+    triple::<3, 4, 3>(any_class(), 2);
     kani::cover!(true, "reached");
 }
 
-// @harness props=C19 tier=thorough mem=10 t=3000 fn="Rdata::equals,Rdata::equals_as_mx,helpers::names_equal,helpers::test_n_name_fields"
-//   bound="type MX, any class; three RDATA of lengths (5,5,5), all octet values; unwind 7"
-//   sym="a,b,c:[u8;5], class:u16" stubs="eq_ignore_ascii_case"
-#[kani::proof]
-#[kani::unwind(7)]
-#[kani::stub(<[u8]>::eq_ignore_ascii_case, eq_ic_model)]
-fn c19_mx_triple_5_5_5() {
-    let w = triple::<5, 5, 5>(any_class(), 15);
-    kani::cover!(w, "three pairwise octet-different MX RDATA in one class");
-}
-
 // ---- RdataSetOwned ----------------------------------------------------------
-
-// @harness props=C19 tier=quick mem=4 t=900 fn="RdataSetOwned::from_iter,RdataSetOwned::insert,<RdataSetOwned as From<&Rdata>>::from,RdataSet::iter,<rdata_set::Iter as Iterator>::next,Rdata::equals"
-//   bound="class IN type A; two RDATA of 4 octets, all octet values; from_iter; unwind 6"
-//   sym="r1,r2:[u8;4]"
-#[kani::proof]
-#[kani::unwind(6)]
-fn c19_set_a_from_iter() {
-    let k2 = set2_from_iter::<4, 4>(IN, 1);
-    kani::cover!(!k2, "second is a duplicate");
-    kani::cover!(k2, "second is new");
-}
 
 // @harness props=C19 tier=quick mem=2 t=300 fn="RdataSetOwned::from_iter"
 //   bound="symbolic class and type; the empty sequence; unwind 3"
@@ -1097,7 +984,18 @@ fn c19_set_from_iter_empty() {
     kani::cover!(ty == 2, "type NS");
 }
 
-// @harness props=C19 tier=thorough mem=10 t=1800 fn="RdataSetOwned::from_iter,RdataSetOwned::insert,<RdataSetOwned as From<&Rdata>>::from,RdataSet::iter,<rdata_set::Iter as Iterator>::next,Rdata::equals"
+// @harness props=C19 tier=quick mem=2 t=300 fn="RdataSetOwned::from_iter,RdataSetOwned::insert,<RdataSetOwned as From<&Rdata>>::from,RdataSet::iter,<rdata_set::Iter as Iterator>::next,Rdata::equals"
+//   bound="class IN type A; two RDATA of 4 octets, all octet values; from_iter; unwind 6"
+//   sym="r1,r2:[u8;4]"
+#[kani::proof]
+#[kani::unwind(6)]
+fn c19_set_a_from_iter() {
+    let k2 = set2_from_iter::<4, 4>(IN, 1);
+    kani::cover!(!k2, "second is a duplicate");
+    kani::cover!(k2, "second is new");
+}
+
+// @harness props=C19 tier=quick mem=4 t=900 fn="RdataSetOwned::from_iter,RdataSetOwned::insert,<RdataSetOwned as From<&Rdata>>::from,RdataSet::iter,<rdata_set::Iter as Iterator>::next,Rdata::equals"
 //   bound="class IN type A; three RDATA of 4 octets, all octet values; from_iter; unwind 6"
 //   sym="r1,r2,r3:[u8;4]"
 #[kani::proof]
@@ -1119,7 +1017,7 @@ fn c19_set_a_insert() {
     kani::cover!(k2 && !k3, "third duplicates an earlier member");
 }
 
-// @harness props=C19 tier=quick mem=8 t=1800 fn="RdataSetOwned::from_iter,RdataSetOwned::insert,<RdataSetOwned as From<&Rdata>>::from,RdataSet::iter,<rdata_set::Iter as Iterator>::next,Rdata::equals,Rdata::equals,helpers::names_equal,helpers::test_n_name_fields,Name::try_from_uncompressed,<Name as PartialEq>::eq,<Label as PartialEq>::eq"
+// @harness props=C19 tier=thorough mem=7 t=1800 fn="RdataSetOwned::from_iter,RdataSetOwned::insert,<RdataSetOwned as From<&Rdata>>::from,RdataSet::iter,<rdata_set::Iter as Iterator>::next,Rdata::equals,Rdata::equals,helpers::names_equal,helpers::test_n_name_fields,Name::try_from_uncompressed,<Name as PartialEq>::eq,<Label as PartialEq>::eq"
 //   bound="class IN type NS; two RDATA of lengths (3,3), all octet values; from_iter; unwind 7"
 //   sym="r1,r2:[u8;3]" stubs="eq_ignore_ascii_case"
 #[kani::proof]
@@ -1132,16 +1030,14 @@ fn c19_set_ns_from_iter_3_3() {
 }
 
 // @harness props=C19 tier=thorough mem=8 t=1800 fn="RdataSetOwned::from_iter,RdataSetOwned::insert,<RdataSetOwned as From<&Rdata>>::from,RdataSet::iter,<rdata_set::Iter as Iterator>::next,Rdata::equals,Rdata::equals,helpers::names_equal,helpers::test_n_name_fields,Name::try_from_uncompressed,<Name as PartialEq>::eq,<Label as PartialEq>::eq"
-//   bound="class IN type NS; two RDATA of lengths (4,3) then (3,4) (name+junk before/after the name), all octet values; from_iter; unwind 7"
-//   sym="r1:[u8;4], r2:[u8;3]; r1b:[u8;3], r2b:[u8;4]" stubs="eq_ignore_ascii_case"
+//   bound="class IN type NS; two RDATA of lengths (4,3) (name+junk, then the name), all octet values; from_iter; unwind 7"
+//   sym="r1:[u8;4], r2:[u8;3]" stubs="eq_ignore_ascii_case"
 #[kani::proof]
 #[kani::unwind(7)]
 #[kani::stub(<[u8]>::eq_ignore_ascii_case, eq_ic_model)]
 fn c19_set_ns_from_iter_4_3() {
     let k2 = set2_from_iter::<4, 3>(IN, 2);
     kani::cover!(k2, "a name after name+junk is new");
-    let k2 = set2_from_iter::<3, 4>(IN, 2);
-    kani::cover!(k2, "name+junk after a name is new");
 }
 
 // @harness props=C19 tier=thorough mem=10 t=2400 fn="RdataSetOwned::from_iter,RdataSetOwned::insert,<RdataSetOwned as From<&Rdata>>::from,RdataSet::iter,<rdata_set::Iter as Iterator>::next,Rdata::equals,Rdata::equals,helpers::names_equal,helpers::test_n_name_fields,Name::try_from_uncompressed,<Name as PartialEq>::eq,<Label as PartialEq>::eq"
